@@ -398,7 +398,7 @@ func genC17(repo string) (string, error) {
 			}
 			// the guard must be `val%U == 0 && val/U > 0` for the same unit
 			if len(cc.List) == 1 {
-				g := exprText(cc.List[0])
+				g := c17ExprText(cc.List[0])
 				want := fmt.Sprintf("val%%timeutil.%s==0&&val/timeutil.%s>0", u, u)
 				if g != want {
 					ladder = append(ladder, "(0, '!')")
@@ -442,15 +442,15 @@ func genC17(repo string) (string, error) {
 	return sb.String(), nil
 }
 
-// exprText prints an expression without blanks (enough to compare a guard's shape).
-func exprText(e ast.Expr) string {
+// c17ExprText prints an expression without blanks (enough to compare a guard's shape).
+func c17ExprText(e ast.Expr) string {
 	switch x := e.(type) {
 	case *ast.BinaryExpr:
-		return exprText(x.X) + x.Op.String() + exprText(x.Y)
+		return c17ExprText(x.X) + x.Op.String() + c17ExprText(x.Y)
 	case *ast.ParenExpr:
-		return "(" + exprText(x.X) + ")"
+		return "(" + c17ExprText(x.X) + ")"
 	case *ast.SelectorExpr:
-		return exprText(x.X) + "." + x.Sel.Name
+		return c17ExprText(x.X) + "." + x.Sel.Name
 	case *ast.Ident:
 		return x.Name
 	case *ast.BasicLit:
@@ -458,9 +458,9 @@ func exprText(e ast.Expr) string {
 	case *ast.CallExpr:
 		var as []string
 		for _, a := range x.Args {
-			as = append(as, exprText(a))
+			as = append(as, c17ExprText(a))
 		}
-		return exprText(x.Fun) + "(" + strings.Join(as, ",") + ")"
+		return c17ExprText(x.Fun) + "(" + strings.Join(as, ",") + ")"
 	}
 	return "?"
 }
